@@ -315,6 +315,40 @@ pub fn sites(tier: Tier) -> Vec<Site> {
         ));
     }
 
+    // 2a. dictionary: the byte strings that mean something somewhere in the protocol (car codes, track codes, a game
+    // version, code-page markers, the special object indices) written over every position of every reference frame -
+    // a field that is "any four bytes" in one packet is a name with rules in another, and readers get shared
+    {
+        let fr = fr.clone();
+        let mut tokens: Vec<Vec<u8>> = vec![];
+        for c in crate::spec::BUILTIN_CARS.iter() { let mut t = c.as_bytes().to_vec(); t.push(0); tokens.push(t); }
+        for t in ["BL1\0\0\0", "RO10X\0", "AS7R\0\0", "0.7F\0\0\0\0", "^J\u{83}A", "^^", "\0\0\0\0", "\u{ff}\u{ff}\u{ff}\u{ff}"] { tokens.push(t.chars().map(|c| c as u32 as u8).collect()); }
+        tokens.extend([vec![252u8], vec![253], vec![254, 255], vec![0xdb, 0xf1, 0x2e, 0x00], vec![b'x', b'f', b'g', 0], vec![b'X', b'F', b'G', b' ']]);
+        let tokens = Arc::new(tokens);
+        let mut doffs = vec![0u64];
+        for f in fr.iter() { doffs.push(doffs.last().unwrap() + f.2.len() as u64 * tokens.len() as u64); }
+        let total = *doffs.last().unwrap();
+        let nt = tokens.len() as u64;
+        sites.push(Site::new(
+            "dictionary",
+            total,
+            &format!("every reference frame (both modes) x every byte position x {nt} protocol tokens (the 20 standard car codes with their NUL, track codes, a game version, code-page markers, special object indices, a mod id, near-misses of a car code) written over the bytes there, followed by a sentinel TINY"),
+            move |i, acc| {
+                let fi = match doffs.binary_search(&i) { Ok(x) => x, Err(x) => x - 1 };
+                let (name, compressed, frame) = &fr[fi];
+                let r = i - doffs[fi];
+                let pos = (r / nt) as usize;
+                let tok = &tokens[(r % nt) as usize];
+                if pos < 2 && tok.len() > 1 { return; } // (size and type bytes: the header sites)
+                let mut buf = frame.clone();
+                for (k, b) in tok.iter().enumerate() { if pos + k < buf.len() { buf[pos + k] = *b; } }
+                buf.extend_from_slice(if *compressed { &SENTINEL_C } else { &SENTINEL_U });
+                let replay = json!({"site": "dictionary", "index": i, "frame": name, "position": pos, "token": hex(tok), "input": hex(&buf[..buf.len().min(64)])});
+                judge(*compressed, &buf, i, replay, acc);
+            },
+        ));
+    }
+
     // 2b. truncations (with and without the size byte adjusted) and extension by 4
     {
         let fr = fr.clone();
@@ -707,6 +741,25 @@ pub fn sites(tier: Tier) -> Vec<Site> {
             judge(compressed, &buf, i, replay, acc);
         },
     ));
+    // no memory between threads: histories of 2 and 3 decodes spread over two threads (rejected frames among them)
+    {
+        let mut corpus: Vec<(String, (bool, Vec<u8>))> = vec![];
+        for k in spec::load().iter() {
+            if !["TINY", "SMALL", "MSO", "VER", "MCI", "NPL", "MAL", "CIM"].contains(&k.name.as_str()) { continue; }
+            let c = k.name.len() % 2 == 1;
+            let Some(f) = spec::ref_encode(k, &crate::gen::baseline(k, 1), c) else { continue };
+            corpus.push((format!("decode {} ({})", k.name, if c { "compressed" } else { "uncompressed" }), (c, f)));
+        }
+        corpus.push(("decode an unknown type".into(), (true, vec![1, 200, 0, 0])));
+        corpus.push(("decode a CIM with an undefined mode".into(), (true, vec![2, 64, 0, 0, 9, 0, 0, 0])));
+        corpus.push(("decode half a frame".into(), (true, vec![3, 11, 0, 0, 0, 0])));
+        corpus.push(("decode size byte 0".into(), (true, vec![0, 3, 0, 0])));
+        sites.push(crate::crossthread::site("C04", "cross-thread-decodes", "Codec::decode", corpus, |(c, f): &(bool, Vec<u8>)| {
+            let mut b = BytesMut::from(&f[..]);
+            let r = Codec::new(mode_of(*c)).decode(&mut b);
+            (match r { Ok(Some(p)) => format!("Ok({p:?})"), Ok(None) => "need more".into(), Err(e) => format!("Err({})", e.to_string().chars().take(60).collect::<String>()) }, b.to_vec())
+        }));
+    }
     sites
 }
 
